@@ -320,7 +320,9 @@ def ctr_key_setup(sc, kind, o, keying, z=None):
 
 def stream(sc, kind, o, total, inplace_prob=0.3):
     for n in cuts(sc.rng, total, BS[kind]):
-        sc.ctr_encrypt(kind, o, sc.rb(n), ip=1 if (n and sc.rng.random() < inplace_prob) else None)
+        r = sc.rng.random()
+        data = bytes(n) if r < 0.08 else b"\xff" * n if r < 0.16 else sc.rb(n)     # all-zero / all-one data too
+        sc.ctr_encrypt(kind, o, data, ip=1 if (n and sc.rng.random() < inplace_prob) else None)
 
 
 def gen_ctr(seed, tier, cap_for, c06=False):
@@ -573,10 +575,12 @@ def check_C05(work, tier, seed):
         run_mc(work, out, "MC_Ctr", "MCneg_Ctr_nostagger", expect_fail=True)
     b = build(work)
     lines = backend_sweep(work, b, "C05", seed, lambda cf: gen_ctr(seed, tier, cf, c06=False), out)
-    b2 = build(work, name="noua", defs=["SKINNY_VERIF_UNALIGNED=0"])
-    for cap in (2, 1, 0):
-        axis_compare(work, "C05", seed, out, lines, "SKINNY_UNALIGNED=0 cap %d" % cap, b2,
-                     gen_ctr(seed, tier, lambda k, cap=cap: cap, c06=False).text(), "-noua%d" % cap)
+    # the byte-wise and the 32-bit-word variants of the XOR / store helpers, under every back end
+    for bname, defs in (("noua", ["SKINNY_VERIF_UNALIGNED=0"]), ("w32", ["SKINNY_VERIF_64BIT=0"])):
+        b2 = build(work, name=bname, defs=defs)
+        for cap in (2, 1, 0):
+            axis_compare(work, "C05", seed, out, lines, "%s cap %d" % (defs[0], cap), b2,
+                         gen_ctr(seed, tier, lambda k, cap=cap: cap, c06=False).text(), "-%s%d" % (bname, cap))
     note_distinct(out, lines, ("o", "n", "ctr", "cap"))
     out.samples = sample_events([x for x in lines if '"ctr_' in x])
     return out, dict(
@@ -881,7 +885,7 @@ def gen_c07(seed, tier, cap_for=lambda k: 2):
         else:
             sc.par_set_key(kind, 0, sc.rb(sc.rng.randrange(1, 4) * bs))
         for nb in range(0, 20 if not thorough else 26):
-            data = sc.rb(nb * bs)
+            data = sc.rb(nb * bs) if nb % 7 != 3 else (bytes(nb * bs) if nb % 2 else b"\xff" * (nb * bs))
             tw = sc.rb(nb * 8) if kind == "mantis" else None
             ip = 1 if nb % 3 == 1 else None
             sc.par_crypt(kind, 0, data, enc=True, tweak=tw, ip=ip)
